@@ -172,7 +172,8 @@ class G:
             if p == "#'":
                 return ("prefix", p, ("sym", r.choice(SYMS[:6])))
             inner = self.form(d - 1)
-            while inner[0] == "discard":
+            # (a splice directly under a syntax quote is malformed: "Cannot splice outside collection")
+            while inner[0] == "discard" or (p == "`" and inner[0] == "prefix" and inner[1] == "~@"):
                 inner = self.form(d - 1)
             return ("prefix", p, inner)
         if t < 0.9:
@@ -461,6 +462,24 @@ def worker(spec, out):
 
     ARG = re.compile(r"^arg-(\d+|rest)$")
 
+    def backtick_outside_strings(text):
+        i, n = 0, len(text)
+        while i < n:
+            c = text[i]
+            if c == '"':
+                i += 1
+                while i < n and text[i] != '"':
+                    i += 2 if text[i] == "\\" else 1
+            elif c == ";":
+                while i < n and text[i] not in "\r\n":
+                    i += 1
+            elif c == "\\":
+                i += 1  # character literal: skip the character itself
+            elif c == "`":
+                return True
+            i += 1
+        return False
+
     def check_spans(text, forms, origin):
         """every node with span metadata: re-reading its span text gives exactly one equal form"""
         starts = line_starts(text)
@@ -519,6 +538,10 @@ def worker(spec, out):
             m = getattr(f, "meta", None)
             st = span_text(text, starts, m) if m is not None and m.val_at(LINE) is not None else None
             if st is not None and "`" in st:
+                out.count("toplevel_forms_skipped_syntax_quote")
+                continue
+            if st is None and backtick_outside_strings(text):
+                # a top-level syntax quote expands into reader-made lists without a span of their own
                 out.count("toplevel_forms_skipped_syntax_quote")
                 continue
             walk(f, False, synthesized=True)  # top-level presence is judged for plain literals by literal_spans_present
